@@ -27,8 +27,9 @@ class Step:
         return cls(d["op"], d.get("raw"), d.get("label", ""), d.get("arg"))
 
 
-async def drive(rig, steps, judge, conn=None, clock=None):
-    """judge(i, step, prev_dump, cur_dump, logs) is called after every step"""
+async def drive(rig, steps, judge, conn=None, clock=None, after=None):
+    """judge(i, step, prev_dump, cur_dump, logs) is called after every step;
+    `after` (async, same arguments minus logs) may probe the relay before the next step"""
     conn = conn or rig.connect("hist")
     prev = dump.dump(rig)
     for i, st in enumerate(steps):
@@ -43,6 +44,9 @@ async def drive(rig, steps, judge, conn=None, clock=None):
                 f = oks[-1][1]
                 st.ok = f[2] if len(f) > 2 else None
                 st.reason = f[3] if len(f) > 3 else ""
+        elif st.op == "http_get":
+            from .checks.c04 import http_get
+            st.ok, st.reason = await http_get(rig, st.arg)
         elif st.op == "gc":
             if clock is not None:
                 clock.now = st.arg
@@ -60,6 +64,8 @@ async def drive(rig, steps, judge, conn=None, clock=None):
         await rig.quiesce()
         cur = dump.dump(rig)
         judge(i, st, prev, cur, env.LOGTAP.take())
+        if after is not None:
+            await after(i, st, prev, cur)
         prev = cur
     return prev
 
